@@ -18,7 +18,7 @@ PID = "C01"
 PROFILE = {"mix": 6, "occ": 3, "reject": 1, "inflight": 1, "pad_fixed": 1}
 
 
-def run(tier, replay=None, pid=PID, profile=PROFILE, k=101, nq=16, nt=400):
+def run(tier, replay=None, pid=PID, profile=PROFILE, k=101, nq=16, nt=400, extra=None):
     rep = vlib.Report(pid, "proof", tier, "cd coq && make Properties/%s.vo Gen/HashCfgGen.vo  (coqc 8.16.1, full .vo build)" % pid)
     rng = vlib.SplitMix64(vlib.seed() * 1000003 + k)
     ok, broken = hc.coq_step(rep, pid)
@@ -86,4 +86,17 @@ def run(tier, replay=None, pid=PID, profile=PROFILE, k=101, nq=16, nt=400):
                        "algo": c["algo"], "fam": c["fam"], "mode": c["mode"], "nctx": c["nctx"], "ops": hc.concrete_ops(hc.parse_native(nline)),
                        "first_difference": w}, no_input=True)
     rep.assumptions = list(hc.ASSUMPTIONS)
+    if pid == PID and not replay:
+        # the BASE family against its own model (Model/HashBase.v, not the generic one) and the
+        # obligations of Properties/C01_base.v (checks/hashbase.py, docs/hash-base.md)
+        try:
+            from checks import hashbase
+        except ImportError:
+            hashbase = None
+        if hashbase is not None:
+            hashbase.base_whitebox(rep, tier)
+    if extra:
+        # hook for a check that extends this one (e.g. C06's lane-level white-box): runs after
+        # everything above, before the verdict is written; may add obligations / violations to rep
+        extra(rep, tier)
     return rep.finish()
